@@ -465,6 +465,87 @@ class ImagesThatLookSpecial(Part):
         return res
 
 
+class _OverBudget(Exception):
+    pass
+
+
+def within_cpu_budget(seconds, fn):
+    """Run fn() under a budget of CPU seconds of this process (ITIMER_VIRTUAL: independent of machine load and of
+    the runner's wall-clock alarm).  Returns (finished, value)."""
+    import signal
+
+    def on_alarm(signum, frame):
+        raise _OverBudget()
+
+    old = signal.signal(signal.SIGVTALRM, on_alarm)
+    signal.setitimer(signal.ITIMER_VIRTUAL, seconds)
+    try:
+        return True, fn()
+    except _OverBudget:
+        return False, None
+    finally:
+        signal.setitimer(signal.ITIMER_VIRTUAL, 0)
+        signal.signal(signal.SIGVTALRM, old)
+
+
+class RunsThenTail(Part):
+    name = "runs_followed_by_a_tail_in_every_slot"
+    desc = ("every catalogue form with its secret slot filled by a run of 32 / 64 equal characters or two-character units "
+            "(digits, hex letters, ':', '$', '.', '1:', '$a') followed by a short tail that ends the run ('-prod', 'x', '!', "
+            "':', ''): the line comes back, and within a CPU budget of 20 s (lines of < 200 characters take microseconds; "
+            "a pattern that backtracks over the splits of the run needs 2^n steps)")
+
+    UNITS = ["1", "0", "a", "f", ":", "$", ".", "1:", "$a", "a1", "peeras:"]
+    TAILS = ["-prod", "x", "!", ":", ""]
+    BUDGET = 20.0
+
+    def __init__(self, tier, seed):
+        self.tier, self.seed = tier, seed
+        self.forms = {f["id"]: f for f in secdom.catalogue()}
+
+    def cases(self):
+        return [{"form": fid} for fid in sorted(self.forms)]
+
+    def run(self, case):
+        res = Res()
+        f = self.forms[case["form"]]
+        nslots = max(1, f["slots"])
+        if "lines" in case:
+            lines = case["lines"]
+        else:
+            lines = []
+            for u in self.UNITS:
+                for n in (32, 64):
+                    for t in self.TAILS:
+                        v = u * (n // len(u)) + t
+                        lines.append(secdom.fill(f["template"], [v] * nslots))
+        ok, got = within_cpu_budget(self.BUDGET, lambda: secdom.run_lines_isolated(lines, "saltForTest", FEATURES_ALL)[0])
+        res.transitions = len(lines)
+        if ok:
+            for ln, g in zip(lines, got):
+                res.evals += 1
+                if isinstance(g, tuple):
+                    res.violation("exception:%s|%s" % (g[1], f["id"]), "line %r raised %s: %s" % (ln[:120], g[1], g[2]),
+                                  {"form": f["id"], "lines": [ln]})
+                else:
+                    res.nt(ln)
+                res.out("returned")
+            if "lines" not in case:
+                res.samples.append({"form": f["template"], "lines": len(lines)})
+            return res
+        # something in there does not come back: find the lines, one at a time under the same budget
+        for ln in lines:
+            res.evals += 1
+            ok1, g = within_cpu_budget(self.BUDGET, lambda: secdom.run_lines_isolated([ln], "saltForTest", FEATURES_ALL)[0])
+            res.out("returned" if ok1 else "over-budget")
+            if not ok1:
+                res.violation("line-does-not-come-back|%s" % f["group"],
+                              "form %s: line %r (%d characters) still running after %.0f CPU seconds" % (f["id"], ln, len(ln), self.BUDGET),
+                              {"form": f["id"], "lines": [ln]})
+                break
+        return res
+
+
 def parts(tier, seed):
     return [ShortStrings(tier, seed), SlotFillers(tier, seed), LongRuns(tier, seed), Salts(tier, seed),
-            FileLevel(tier, seed), Volume(tier, seed), CaseVariants(tier, seed), AsHashEdges(tier, seed), ImagesThatLookSpecial(tier, seed)]
+            FileLevel(tier, seed), Volume(tier, seed), CaseVariants(tier, seed), AsHashEdges(tier, seed), ImagesThatLookSpecial(tier, seed), RunsThenTail(tier, seed)]
